@@ -119,6 +119,17 @@ def menu():
     add("modules", "gn", items=[_item("sub", None)])
     add("examples", "gn", blocks=[("text", ["Prose here."]), ("examples", [">>> f(1)", "True"])])
     add("examples", "gn", blocks=[("examples", [">>> f(2)  # doctest: +SKIP", "2", ">>> print('a\\n\\nb')", "a", "<BLANKLINE>", "b"])])
+    # three items in one section (what is carried from one item to the next, or counted, shows with a first, a middle and a last one): on their own only
+    for kind in ("parameters", "other parameters", "attributes"):
+        add(kind, "gns" if kind != "other parameters" else "gn", items=[_item("x", "int"), _item("y", None, D2), _item("z", "str", D3)], solo=True)
+        add(kind, "gn", items=[_item("x", None, D3), _item("y", "list[int]"), _item("z", None, D2)], solo=True)
+    for kind in ("returns", "yields", "receives"):
+        add(kind, "gn", items=[_item("r", "int"), _item("s", "str", D2), _item("t", "float", D3)], solo=True)
+    for kind in ("raises", "warns"):
+        add(kind, "gns" if kind == "raises" else "gn", items=[_item(None, "ValueError"), _item(None, "KeyError", D2), _item(None, "OSError", D3)], solo=True)
+    add("functions", "gn", items=[_item("g", None, D1, sig="g(a, b)"), _item("h", None, D2, sig="h(x: int) -> int"), _item("k", None, D3, sig="k()")], solo=True)
+    add("classes", "gn", items=[_item("C", None, D2, sig="C(a)"), _item("D", None, D1, sig="D(b: int = 0)"), _item("E", None, D3, sig="E()")], solo=True)
+    add("modules", "gn", items=[_item("sub", None), _item("sub2", None, D2), _item("sub3", None, D3)], solo=True)
     add("admonition", "gn", adm=("note", None, [["Admonition text."]]))
     add("admonition", "g", adm=("note", "Custom title", [["Titled one."], ["titled two."]]))
     add("deprecated", "n", dep=("1.0", [["Dep text."]]))
@@ -153,6 +164,8 @@ def cases(tier):
                 kinds = [MENU[i]["kind"] for i in combo]
                 if len(set(kinds)) != len(kinds):
                     continue
+                if n > 1 and any(MENU[i].get("solo") for i in combo) and not (n == 2 and kinds[0] == "text" and combo[0] == 0):
+                    continue  # (three-item instances: alone, or after the one-line free text)
                 parents_wanted = {MENU[i].get("parent") for i in combo} - {None}
                 if len(parents_wanted) > 1 or ("attributes" in kinds and parents_wanted):
                     continue  # one docstring has one parent
